@@ -181,6 +181,15 @@ func ProfileFor(focus, arm string) Profile {
 		p.NUpstreams = [2]int{2, 4}
 		p.NConns, p.OpsPerConn = [2]int{3, 8}, [2]int{2, 8}
 		p.RepeatToken = 0.1
+		if arm == "burst" {
+			// many queries inside a few milliseconds with scheduling points on:
+			// concurrent evaluations of the same rule list and domain sets
+			p.NConns, p.OpsPerConn = [2]int{6, 16}, [2]int{3, 10}
+			p.SpanUs = 30_000
+			p.Seg = true
+			p.Yields = true
+			p.DelayUs = [2]int64{100, 5_000}
+		}
 		if focus == "C10" {
 			// repeats of a name in another class or type, with a cache that
 			// may answer: the question still has to reach the upstream
@@ -1125,6 +1134,10 @@ func specialize(r *rng, p *plan.Plan, focus, arm string) {
 			rp.HorizonUs = 1_000_000
 		}
 	case "C17":
+		if arm == "pair" {
+			genC17pair(r, p)
+			return
+		}
 		// mtls arm: TLS-based listeners that verify client certificates
 		for i := range rp.Servers {
 			switch rp.Servers[i].Proto {
@@ -1605,6 +1618,65 @@ func genC11(r *rng, p *plan.Plan) {
 	}
 }
 
+// genC17pair: two upstreams whose URLs name the same host (and so lead to the
+// same server) with different trust settings; the first can authenticate the
+// server, the second - in three runs out of four - cannot.  Whatever one
+// upstream has established (connections, TLS sessions) must not let the
+// other's exchanges succeed.
+func genC17pair(r *rng, p *plan.Plan) {
+	rp := p.Router
+	kind := r.pick([]string{"tls", "tls+pipeline", "https", "quic", "h3", "tls", "https"})
+	rp.Servers = []plan.ServerSpec{{Tag: "s0", Proto: r.pick([]string{"udp", "tcp"}), Listen: "127.0.0.1:5300"}}
+	port := map[string]int{"tls": 853, "tls+pipeline": 853, "https": 443, "quic": 853, "h3": 443}[kind]
+	addr := kind + "://pair.upstream.test"
+	if kind == "https" || kind == "h3" {
+		addr += "/dns-query"
+	}
+	a := plan.UpstreamSpec{Tag: "up0", Kind: kind, Host: "10.1.0.10", Port: port, Addr: addr, TLS: "good", UseCA: true}
+	b := plan.UpstreamSpec{Tag: "up1", Kind: kind, Port: port, Addr: addr}
+	switch r.intn(4) {
+	case 0:
+		b.UseCA = true // control: the same trust, may succeed
+	case 1, 2:
+		b.MustFail = true // no ca: the system roots, which do not hold the server's issuer
+	default:
+		b.OtherCA, b.MustFail = true, true
+	}
+	rp.Upstreams = []plan.UpstreamSpec{a, b}
+	rp.DomainSets = []plan.DomainSetSpec{{Tag: "setb", Files: [][]string{{"domain:b.pair.test"}}}}
+	rp.Rules = []plan.RuleSpec{{Domain: "setb", Forward: "up1"}, {Forward: "up0"}}
+	rp.Cache = plan.CacheSpec{}
+	rp.Limiter = plan.LimiterSpec{}
+	rp.ECS, rp.LogQueries, rp.StartFault, rp.CloseAtUs, rp.MetricsAddr = false, false, nil, 0, ""
+	rp.Conns, rp.Ops = nil, nil
+	rp.Tokens = map[string]*plan.TokenSpec{}
+	add := func(at int64, zone string) {
+		ci, idx := len(rp.Conns), len(rp.Ops)
+		rp.Conns = append(rp.Conns, plan.ClientConn{Idx: ci, Server: 0, Src: "192.0.2.7", LingerUs: 8_000_000})
+		tok := fmt.Sprintf("t%d", idx)
+		rp.Ops = append(rp.Ops, plan.ClientOp{Idx: idx, Conn: ci, AtUs: at, ID: uint16(0x3000 + idx*7), Token: tok, NQ: 1, Class: 1, Type: 1, Bits: refdns.BitRD,
+			Labels: append([][]byte{[]byte(tok)}, labelsOf(zone)...)})
+		rp.Tokens[tok] = &plan.TokenSpec{Ans: plan.AnswerSpec{NAn: 1, TTLs: []uint32{60}, Shape: "plain"}, Acts: []plan.UpAction{{Kind: "reply", DelayUs: r.i64(100, 3000)}}}
+	}
+	zones := []string{"a.pair.test", "b.pair.test"}
+	if r.p(0.25) {
+		zones[0], zones[1] = zones[1], zones[0] // the one that cannot authenticate goes first
+	}
+	t := int64(20_000)
+	for round := r.rng(1, 3); round > 0; round-- {
+		for _, z := range zones {
+			for n := r.rng(1, 4); n > 0; n-- {
+				add(t, z)
+				t += r.i64(0, 40_000)
+			}
+			// sometimes long enough for idle connections to be dropped
+			t += []int64{50_000, 400_000, 3_000_000, 12_000_000, 35_000_000}[r.intn(5)]
+		}
+	}
+	rp.HorizonUs = t + 8_000_000 + 12_000_000
+	p.Knobs.OldTLSResume = r.p(0.7)
+}
+
 // genC15 configures the limiter and a workload of a few heavy subnets plus
 // light "victim" subnets that stay far inside their own budget.
 func genC15(r *rng, p *plan.Plan) {
@@ -1685,6 +1757,25 @@ func genC15(r *rng, p *plan.Plan) {
 		}
 		si := r.intn(len(rp.Servers))
 		add(pickSrc(si, heavy4, heavy6), t, si)
+	}
+	// a pipelining client: many queries written at once on one new stream
+	// connection (one segment, one read event at the listener); every one of
+	// them has to be charged
+	for si, srv := range rp.Servers {
+		if !(srv.Proto == "tcp" || srv.Proto == "tls" || srv.Proto == "gnet") || !r.p(0.6) {
+			continue
+		}
+		src := pickSrc(si, heavy4, heavy6)
+		at := r.i64(20_000, t)
+		key := fmt.Sprintf("%s/%d", src, si)
+		first := len(rp.Conns)
+		rp.Conns = append(rp.Conns, plan.ClientConn{Idx: first, Server: si, Src: src, LingerUs: 8_000_000, Coalesce: true})
+		for k := r.rng(6, 40); k > 0; k-- {
+			// add() opens another connection now and then: keep filling the first
+			lastConn[key], lastAt[key] = first, at
+			add(src, at, si)
+		}
+		delete(lastConn, key)
 	}
 	// victims: a handful of queries, far inside their own budget
 	for n := r.rng(2, 6); n > 0; n-- {
